@@ -995,7 +995,13 @@ def run_property(pid, tier, seed):
 
     cases = corpus_cases(pid) + P.cases(tier, seed)
     impl = rxlib.run_sharded(harness, ["dump"], cases, work, "impl") if cases else {}
-    model = rxlib.run_sharded(DRIVER, [], cases, work, "model") if (cases and model_ok and P.model_side) else {}
+    # cases marked impl_only (scale families whose cost in the list-based model is quadratic) are
+    # judged by the oracle only; the model sees a tiny stand-in so that indices stay aligned
+    if cases and model_ok and P.model_side:
+        mcases = [c if not (c.meta or {}).get("impl_only") else Case(b"<skip/>", "-", True) for c in cases]
+        model = rxlib.run_sharded(DRIVER, [], mcases, work, "model")
+    else:
+        model = {}
 
     diffs, failing = [], []
     kinds = collections.Counter()
@@ -1012,7 +1018,7 @@ def run_property(pid, tier, seed):
         for l in li:
             if l.startswith("E "):
                 errs[l.split(" ")[1]] += 1
-        if model:
+        if model and not (c.meta or {}).get("impl_only"):
             a = rxlib.project(li, P.sections)
             b2 = rxlib.project(model[i], P.sections)
             if a != b2:
